@@ -1,13 +1,24 @@
 (* C21 driver.  Input (harness/cmd/vh/c21.go):
      S|P   peers th  (sec nsec) x 7 : now startup connected synced became created detected
-     SM|PM peers th  off x 7        : nanosecond offsets from a base time.Now() (monotonic readings);
-                                      only differences matter, so the model runs on base' + off for a
-                                      fixed base' (C21_time_sub_saturates: Sub depends on the exact
-                                      difference only; the monotonic and the wall difference coincide).
+     SM|PM peers th  off x 7        : nanosecond offsets from a base time.Now() (monotonic readings)
+     SX|PX peers th  tok x 7        : mixed: m<off> = base.Add(off) with its monotonic reading,
+                                      w<off> = the same instant stripped to wall-only (Round(0)),
+                                      z = time.Time{}.  Now is always m<off>.
+   For SM/PM/SX/PX only differences matter (C21_time_sub_saturates, C21_sub_mono_saturates: Sub depends
+   on the exact difference only, and the monotonic and the wall difference of base.Add values
+   coincide), so the model runs on base' + off for a fixed base' in 2026; z is the zero time (its
+   distance from any 2026 base exceeds 2^63 ns, so the saturated result does not depend on the base).
    Observation: S: wait errcode ; P: 0|1.
    model_obs = extracted synced_to_emit / detect_parallel (the REPAIRED code).
-   spec_ok   = spec/DoubleSignSpec.v answer_ok / parallel_b on the implementation's answer (exact
-               integer arithmetic), for thresholds > MinInt64 (the domain of the theorems). *)
+   spec_ok   = the STRICT verdict for EVERY case: answer = spec/DoubleSignSpec.v [expected] (exact
+               integers, the literal property) / [parallel_b].
+   Known residue of the repaired code (C21_*_refuted): a spec failure is tagged
+       why=min-threshold-emit       th = MinInt64, S case
+       why=min-threshold-parallel   th = MinInt64, P case
+       why=neg-threshold-saturated  MinInt64 < th < 0 and some stamp more than 2^63 ns ahead of now
+   ONLY when the input is in that class AND the implementation's answer is exactly the model's (the
+   behaviour the theorems C21_min_threshold_emits / _no_parallel / C21_wait_bounds describe); any other
+   spec failure carries no tag and is a VIOLATION. *)
 open Model
 open Conv
 open Drv
@@ -21,6 +32,9 @@ let time_of_off (o : string) =
   let q = ZA.fdiv v giga_ in
   let r = ZA.sub v (ZA.mul q giga_) in
   mk (z_of_zz q) (z_of_zz r)
+let time_of_mixed (t : string) =
+  if t = "z" then mk (z_of_zz ZA.zero) (z_of_zz ZA.zero)
+  else time_of_off (String.sub t 1 (String.length t - 1))
 
 let err_of_code = function
   | "0" -> Some NoErr | "1" -> Some ErrNoConnections | "2" -> Some ErrP2PSyncOngoing
@@ -38,30 +52,41 @@ let eval inp obs =
       op, zt p, zt th, go rest
     | (("SM" | "PM") as op) :: p :: th :: rest ->
       String.sub op 0 1, zt p, zt th, List.map time_of_off rest
+    | (("SX" | "PX") as op) :: p :: th :: rest ->
+      String.sub op 0 1, zt p, zt th, List.map time_of_mixed rest
     | _ -> failwith "bad case" in
   match times with
   | [now; startup; connected; synced; became; created; detected] ->
     let s = { peers = peers; now = now; startup = startup; connected = connected; synced = synced;
               became = became; created = created; detected = detected } in
-    let in_domain = ZA.gt (zz_of_z th) (zz_of_z min64) in
+    let thz = zz_of_z th in
+    let is_min = ZA.equal thz (zz_of_z min64) in
+    let is_neg = ZA.sign thz < 0 && not is_min in
     if op = "S" then begin
       let (w, e) = synced_to_emit s th in
       let model_obs = [tok_of_z w; tok_of_z (werr_code e)] in
-      let spec_ok = (match obs with
+      let impl_ok = (match obs with
         | [wi; ei] -> (match err_of_code ei with
-                       | Some e' -> if in_domain then Some (answer_ok s th (z_of_tok wi, e')) else None
-                       | None -> Some false)
-        | _ -> Some false) in
-      { default_verdict with model_obs; spec_ok;
-        model_spec_ok = (if in_domain then answer_ok s th (w, e) else true);
-        nontrivial = true;
-        note = (if in_domain then "" else "(threshold = MinInt64: outside the theorems' domain)") }
+                       | Some e' -> answer_ok s th (z_of_tok wi, e')
+                       | None -> false)
+        | _ -> false) in
+      let model_ok = answer_ok s th (w, e) in
+      let residue =
+        if is_min then "why=min-threshold-emit"
+        else if is_neg && saturated_b s then "why=neg-threshold-saturated"
+        else "" in
+      (* the tag needs: known class, the model itself fails the strict spec there, impl = model *)
+      let tag = if residue <> "" && (not model_ok) && obs = model_obs then residue else "" in
+      { default_verdict with model_obs; spec_ok = Some impl_ok; model_spec_ok = model_ok;
+        nontrivial = true; note = tag }
     end else begin
       let r = detect_parallel s th in
-      { default_verdict with model_obs = [tok_of_bool r];
-        spec_ok = (if in_domain then Some (obs = [tok_of_bool (parallel_b s th)]) else None);
-        model_spec_ok = (if in_domain then r = parallel_b s th else true);
-        nontrivial = true }
+      let model_obs = [tok_of_bool r] in
+      let want = [tok_of_bool (parallel_b s th)] in
+      let model_ok = (model_obs = want) in
+      let tag = if is_min && (not model_ok) && obs = model_obs then "why=min-threshold-parallel" else "" in
+      { default_verdict with model_obs; spec_ok = Some (obs = want); model_spec_ok = model_ok;
+        nontrivial = true; note = tag }
     end
   | _ -> failwith "expected 7 time values"
 
